@@ -40,6 +40,58 @@ fn all_coords(g: &Geometry<f64>) -> Vec<Coord<f64>> {
     g.coords_iter().collect()
 }
 
+/// Structural comparison of `out` with the image of `orig` under `f`: member by member, coordinate by coordinate;
+/// a Triangle may come back with its vertices permuted (Triangle::new re-orders them counter-clockwise), a Rect
+/// is the re-normalised rectangle through the images of its two defining corners (documented on MapCoords).
+fn cmp_mapped(orig: &Geometry<f64>, out: &Geometry<f64>, f: &dyn Fn(Coord<f64>) -> Coord<f64>, tol_of: &dyn Fn(&Coord<f64>) -> f64) -> Result<(), String> {
+    let close = |a: &Coord<f64>, w: Coord<f64>, b: &Coord<f64>| { let t = tol_of(a); (w.x - b.x).abs() <= t && (w.y - b.y).abs() <= t };
+    match (orig, out) {
+        (Geometry::GeometryCollection(a), Geometry::GeometryCollection(b)) => {
+            if a.0.len() != b.0.len() {
+                return Err(format!("collection of {} members became {}", a.0.len(), b.0.len()));
+            }
+            for (x, y) in a.0.iter().zip(b.0.iter()) {
+                cmp_mapped(x, y, f, tol_of)?;
+            }
+            Ok(())
+        }
+        (Geometry::Triangle(a), Geometry::Triangle(b)) => {
+            let (cs, oc) = (a.to_array(), b.to_array());
+            let want: Vec<Coord<f64>> = cs.iter().map(|a| f(*a)).collect();
+            let perms = [[0, 1, 2], [0, 2, 1], [1, 0, 2], [1, 2, 0], [2, 0, 1], [2, 1, 0]];
+            if perms.iter().any(|pm| (0..3).all(|i| close(&cs[i], want[i], &oc[pm[i]]))) {
+                Ok(())
+            } else {
+                Err(format!("triangle vertices {:?} -> {:?}, expected (in some order) {:?}", cs, oc, want))
+            }
+        }
+        (Geometry::Rect(a), Geometry::Rect(b)) => {
+            let want = geo::Rect::new(f(a.min()), f(a.max()));
+            let t = tol_of(&a.min()).max(tol_of(&a.max()));
+            let ok = |u: Coord<f64>, v: Coord<f64>| (u.x - v.x).abs() <= t && (u.y - v.y).abs() <= t;
+            if ok(want.min(), b.min()) && ok(want.max(), b.max()) {
+                Ok(())
+            } else {
+                Err(format!("{:?} -> {:?}, expected {:?}", a, b, want))
+            }
+        }
+        (a, b) if std::mem::discriminant(a) == std::mem::discriminant(b) => {
+            let (cs, oc) = (all_coords(a), all_coords(b));
+            if cs.len() != oc.len() {
+                return Err(format!("{} coordinates became {}", cs.len(), oc.len()));
+            }
+            for (i, (a, b)) in cs.iter().zip(oc.iter()).enumerate() {
+                let w = f(*a);
+                if !close(a, w, b) {
+                    return Err(format!("coord {i}: {:?} -> {:?}, expected {:?} (tol {})", a, b, w, tol_of(a)));
+                }
+            }
+            Ok(())
+        }
+        (a, b) => Err(format!("type changed: {:?} -> {:?}", a, b)),
+    }
+}
+
 fn dyadic() -> impl Strategy<Value = f64> {
     (-64i32..65, 0u32..5).prop_map(|(m, e)| m as f64 / (1u32 << e) as f64)
 }
@@ -69,7 +121,7 @@ impl Property for C13 {
                 .prop_map(|(chain, pts)| Case::IntAlgebra { chain, pts }),
             2 => (proptest::collection::vec(fmat(), 1..7), proptest::collection::vec((-100.0f64..100.0, -100.0f64..100.0), 1..5))
                 .prop_map(|(chain, pts)| Case::FloatAlgebra { chain, pts }),
-            3 => (geom_strategy(), 0u8..36, prop_oneof![dyadic(), -720.0f64..720.0], prop_oneof![dyadic(), -80.0f64..80.0], (dyadic(), dyadic()))
+            3 => (prop_oneof![3 => geom_strategy(), 1 => crate::props::c19::structural_strategy()], 0u8..36, prop_oneof![dyadic(), -720.0f64..720.0], prop_oneof![dyadic(), -80.0f64..80.0], (dyadic(), dyadic()))
                 .prop_map(|(g, kind, p1, p2, origin)| Case::Traits { g, kind, p1, p2, origin }),
             5 => (pair_strategy(), xf_strategy(), (-2i64..16, -2i64..16)).prop_map(|(Pair { a, b }, xf, q)| Case::Commute { a, b, xf, q }),
         ]
@@ -201,7 +253,13 @@ impl Property for C13 {
             Case::Traits { g, kind, p1, p2, origin } => {
                 obs.label("sub:Traits");
                 let (p1, p2, origin): (f64, f64, (f64, f64)) = (*p1, *p2, *origin);
-                if !in_relate_domain(g) || !p1.is_finite() || !p2.is_finite() || p1.abs() > 1e4 || p2.abs() > 1e4 || origin.0.abs() > 1e4 || origin.1.abs() > 1e4 {
+                // arbitrary structure (one-coordinate line strings, open rings, empty members, nested collections) is in the
+                // domain of every form whose origin does not depend on the centroid of a valid geometry
+                let structural = !in_relate_domain(g);
+                if structural {
+                    obs.label("traits:arbitrary-structure");
+                }
+                if (structural && kind % 36 == 6) || !p1.is_finite() || !p2.is_finite() || p1.abs() > 1e4 || p2.abs() > 1e4 || origin.0.abs() > 1e4 || origin.1.abs() > 1e4 {
                     obs.label("skipped:out-of-domain");
                     return;
                 }
@@ -288,35 +346,13 @@ impl Property for C13 {
                 obs.expect(all_coords(&out) == all_coords(&out_mut), &format!("affine-trait:{tn}|form{k}|mut-differs"), || format!("g={} p1={p1} p2={p2}", wkt(g)));
                 let oc = all_coords(&out);
                 // Rect re-normalises its corners and maps only two of them: compare its bounds only when the map is axis-preserving
-                if matches!(gg, Geometry::Rect(_)) {
-                    return;
-                }
                 match expect {
                     None => obs.expect(oc == cs, &format!("affine-trait:{tn}|form{k}|empty-changed"), || format!("g={}", wkt(g))),
                     Some(f) => {
-                        obs.expect(oc.len() == cs.len(), &format!("affine-trait:{tn}|form{k}|shape-changed"), || format!("g={}", wkt(g)));
                         let amp = 1.0 + p2.abs() + (s1.to_radians().tan()).abs() + (s2.clamp(-80.0, 80.0).to_radians().tan()).abs() + s1.abs() / 16.0;
                         let tol_of = |a: &Coord<f64>| 1e-9 * amp * (1.0 + a.x.abs() + a.y.abs() + origin.0.abs() + origin.1.abs() + p1.abs().min(1e3) + p2.abs());
-                        if matches!(gg, Geometry::Triangle(_)) && cs.len() == 3 && oc.len() == 3 {
-                            // Triangle::new re-orders its vertices counter-clockwise, so an orientation-reversing map
-                            // permutes them: the output must equal the mapped vertices under SOME permutation
-                            let want: Vec<Coord<f64>> = cs.iter().map(|a| f(*a)).collect();
-                            let perms = [[0, 1, 2], [0, 2, 1], [1, 0, 2], [1, 2, 0], [2, 0, 1], [2, 1, 0]];
-                            let ok = perms.iter().any(|pm| (0..3).all(|i| {
-                                let t = tol_of(&cs[i]);
-                                (want[i].x - oc[pm[i]].x).abs() <= t && (want[i].y - oc[pm[i]].y).abs() <= t
-                            }));
-                            obs.expect(ok, &format!("affine-trait:{tn}|form{k}|coordinate"), || {
-                                format!("vertices {:?} -> {:?}, expected (in some order) {:?}; g={} p1={p1} p2={p2} s1={s1} origin={:?}", cs, oc, want, wkt(g), origin)
-                            });
-                        } else {
-                            for (i, (a, b)) in cs.iter().zip(oc.iter()).enumerate() {
-                                let w = f(*a);
-                                let tol = tol_of(a);
-                                obs.expect((w.x - b.x).abs() <= tol && (w.y - b.y).abs() <= tol, &format!("affine-trait:{tn}|form{k}|coordinate"), || {
-                                    format!("coord {i}: {:?} -> {:?}, expected {:?} (tol {tol}); g={} p1={p1} p2={p2} s1={s1} origin={:?}", a, b, w, wkt(g), origin)
-                                });
-                            }
+                        if let Err(e) = cmp_mapped(&gg, &out, &*f, &tol_of) {
+                            obs.fail(format!("affine-trait:{tn}|form{k}|coordinate"), format!("{e}; g={} p1={p1} p2={p2} s1={s1} origin={:?}", wkt(g), origin));
                         }
                     }
                 }
